@@ -14,6 +14,10 @@ Extracted (fail-closed: a shape that is not found raises TranslatorError):
   * in _call_subflow, whether `_record_next_step(new_state, subflow_state, subflow_config)` is
     guarded by `if subflow_state.status == FlowStatus.ACTIVE:` (or absent - _slide_with_subflows
     already proposes the head of an active subflow)                   -> call_records_active_only
+  * sliding.py::slide is ONE `while True:` loop without an iteration cap: its only `break` is the
+    final `else: break` (non-sliding element), its only other exits are the three modelled
+    `return`s, and it assigns no name beyond the modelled ones (a step counter would be a new
+    name)                                                             -> slide_unbounded
 V1/Interp.v takes these as definitions; Props/C14.v proves `start_marks_completed = true`
 from the generated value, so the pinned snapshot (which lacks the statement) breaks a proof
 obligation and the harness then exhibits the failing history.
@@ -121,7 +125,59 @@ def flows_consts():
         out["call_records_active_only"] = True     # _slide_with_subflows already proposes an active subflow's head
     else:
         raise TranslatorError("_call_subflow: unexpected use of _record_next_step")
+    out["slide_unbounded"] = slide_unbounded()
     return out
+
+
+SLIDE_SRC = "nemoguardrails/colang/v1_0/runtime/sliding.py"
+_SLIDE_NAMES = {"context", "active_label", "active_label_data", "prev_head", "head", "pattern_item",
+                "p_type", "expr", "check", "value", "key_name"}
+
+
+def slide_unbounded() -> bool:
+    """True iff sliding.py::slide is the loop the model transcribes, with NO iteration cap:
+    one `while True:` whose only `break` is the final `else: break` of the element-type chain
+    (a non-sliding element), whose only other exits are the three modelled `return`s, and which
+    assigns no name beyond the modelled ones (a step counter would be a new name)."""
+    tree = TC._parse(SLIDE_SRC)
+    fn = TC._func(tree, "slide")
+    loops = [n for n in ast.walk(fn) if isinstance(n, (ast.While, ast.For))]
+    if len(loops) != 1 or not isinstance(loops[0], ast.While):
+        return False
+    loop = loops[0]
+    if not (isinstance(loop.test, ast.Constant) and loop.test.value is True) or loop.orelse:
+        return False
+    # names assigned anywhere in the function
+    assigned = set()
+    for n in ast.walk(fn):
+        if isinstance(n, (ast.Assign, ast.AugAssign, ast.AnnAssign)):
+            targets = n.targets if isinstance(n, ast.Assign) else [n.target]
+            for t in targets:
+                for m in ast.walk(t):
+                    if isinstance(m, ast.Name):
+                        assigned.add(m.id)
+    if not assigned <= _SLIDE_NAMES:
+        return False
+    breaks = [n for n in ast.walk(loop) if isinstance(n, ast.Break)]
+    raises = [n for n in ast.walk(fn) if isinstance(n, ast.Raise)]
+    returns = [n for n in ast.walk(loop) if isinstance(n, ast.Return)]
+    if len(breaks) != 1 or raises or len(returns) != 3:
+        return False
+    # the break is the last `else` of the if/elif chain that ends the loop body
+    last = loop.body[-1]
+    if not isinstance(last, ast.If):
+        return False
+    node = last
+    while len(node.orelse) == 1 and isinstance(node.orelse[0], ast.If):
+        node = node.orelse[0]
+    if not (len(node.orelse) == 1 and isinstance(node.orelse[0], ast.Break)):
+        return False
+    # the first statement of the body is the end-of-flow test
+    first = loop.body[0]
+    if not (isinstance(first, ast.If) and ast.dump(first.test) == _d("head == len(flow_config.elements) or head < 0")
+            and len(first.body) == 1 and isinstance(first.body[0], ast.Return)):
+        return False
+    return len(loop.body) == 7
 
 
 def emit(c) -> str:
@@ -133,6 +189,8 @@ def emit(c) -> str:
         f"Definition nontrigger_modifier : Q := ({q.numerator} # {q.denominator})%Q.",
         f"Definition start_marks_completed : bool := {'true' if c['start_marks_completed'] else 'false'}.",
         f"Definition call_records_active_only : bool := {'true' if c['call_records_active_only'] else 'false'}.",
+        "(* colang/v1_0/runtime/sliding.py: slide() is an unbounded `while True` loop *)",
+        f"Definition slide_unbounded : bool := {'true' if c['slide_unbounded'] else 'false'}.",
     ]
     return "\n".join(lines)
 
